@@ -78,6 +78,13 @@ PROPS["C12"] = dict(
     harness=["impl"],
 )
 
+PROPS["C13"] = dict(
+    modules=["Proofs.C13"],
+    theorems=["Goflow.C13.varint_roundtrip", "Goflow.C13.frame_split", "Goflow.C13.stream_of_messages"],
+    generators=[dict(name="C13", quick=40, thorough=1500)],
+    harness=["impl"],
+)
+
 PROPS["C16"] = dict(
     modules=["Proofs.C16", "Proofs.Findings.C16"],
     theorems=["Goflow.C16.inv_init", "Goflow.C16.inv_step", "Goflow.C16.inv_run", "Goflow.C16.publish_once",
